@@ -15,6 +15,7 @@ import (
 	"strconv"
 	"strings"
 	"time"
+	"unicode/utf8"
 )
 
 // FilterFunc is a function that can be used as a filter
@@ -1128,7 +1129,7 @@ func length(v interface{}) (int, error) {
 
 	switch value := v.(type) {
 	case string:
-		return len(value), nil
+		return utf8.RuneCountInString(value), nil
 	case []interface{}:
 		return len(value), nil
 	case map[string]interface{}:
@@ -1370,7 +1371,8 @@ func (e *CoreExtension) filterCapitalize(value interface{}, args ...interface{})
 	words := strings.Fields(s)
 	for i, word := range words {
 		if len(word) > 0 {
-			words[i] = strings.ToUpper(word[0:1]) + strings.ToLower(word[1:])
+			_, size := utf8.DecodeRuneInString(word)
+			words[i] = strings.ToUpper(word[:size]) + strings.ToLower(word[size:])
 		}
 	}
 
@@ -1387,7 +1389,8 @@ func (e *CoreExtension) filterTitle(value interface{}, args ...interface{}) (int
 	words := strings.Fields(s)
 	for i, word := range words {
 		if len(word) > 0 {
-			words[i] = strings.ToUpper(word[0:1]) + strings.ToLower(word[1:])
+			_, size := utf8.DecodeRuneInString(word)
+			words[i] = strings.ToUpper(word[:size]) + strings.ToLower(word[size:])
 		}
 	}
 
@@ -1402,7 +1405,8 @@ func (e *CoreExtension) filterFirst(value interface{}, args ...interface{}) (int
 	switch v := value.(type) {
 	case string:
 		if len(v) > 0 {
-			return string(v[0]), nil
+			_, size := utf8.DecodeRuneInString(v)
+			return v[:size], nil
 		}
 		return "", nil
 	case []interface{}:
@@ -1445,7 +1449,8 @@ func (e *CoreExtension) filterLast(value interface{}, args ...interface{}) (inte
 	switch v := value.(type) {
 	case string:
 		if len(v) > 0 {
-			return string(v[len(v)-1]), nil
+			_, size := utf8.DecodeLastRuneInString(v)
+			return v[len(v)-size:], nil
 		}
 		return "", nil
 	case []interface{}:
